@@ -660,7 +660,7 @@ fn e2e_class(c: &E2eCase) -> String {
             return class.into();
         }
     }
-    for t in ["bin==", "bin!=", "bin==?", "bin!=?", "bin&&", "bin||", "bin**"] {
+    for t in ["bin==", "bin!=", "bin==?", "bin!=?", "bin&&", "bin||", "bin**", "bin<:", "bin<=", "bin>:", "bin>="] {
         if tags.iter().any(|x| x == t) {
             return t.into();
         }
@@ -672,7 +672,7 @@ fn e2e_class(c: &E2eCase) -> String {
 /// Shrink the failing case; the signature is the operator set of the minimal failing
 /// expression plus the kind of deviation, so that one defect gives one signature.
 fn e2e_reduce(c: &E2eCase) -> (E2eCase, String) {
-    let min = crate::vexpr::reduce(&c.expr, &c.vars, &c.env, c.width, 80, &mut |cand| e2e_fails(&c.with_expr(cand.clone())));
+    let min = crate::vexpr::reduce(&c.expr, &c.vars, &c.env, c.width, 200, &mut |cand| e2e_fails(&c.with_expr(cand.clone())));
     let m = c.with_expr(min);
     let c2 = m.clone();
     let o = fresh_thread(STACK_64M, move || run_e2e(&c2)).ok();
@@ -812,14 +812,14 @@ pub fn main(args: Args) {
         },
     );
 
-    run.finish(&[
-        ("api_evaluations", 1_000_000),
-        ("api_lifted_to_biguint", 100_000),
-        ("api_results_with_xz", 100_000),
-        ("api_ops", 34),
-        ("e2e_values_compared", 700),
-        ("e2e_constructs", 30),
-    ]);
+    let mut floors: Vec<(&str, i64)> = vec![];
+    if do_api {
+        floors.extend([("api_evaluations", 1_000_000), ("api_lifted_to_biguint", 100_000), ("api_results_with_xz", 100_000), ("api_ops", 34)]);
+    }
+    if do_e2e {
+        floors.extend([("e2e_values_compared", 700), ("e2e_constructs", 30)]);
+    }
+    run.finish(&floors);
 }
 
 fn absorb(run: &Run, arm: &str, i: u64, r: Result<ApiStats, vcommon::pool::PanicInfo>) {
